@@ -4,6 +4,10 @@ pub mod c01;
 pub mod c02;
 pub mod c03;
 pub mod c05;
+pub mod c10;
+pub mod c16;
+pub mod c17;
+pub mod registry;
 pub mod c12;
 pub mod c19;
 pub mod c20;
@@ -17,7 +21,10 @@ pub fn build(id: &str, tier: &str) -> Option<Check> {
         "C02" => c02::build(quick),
         "C03" => c03::build(quick),
         "C05" => c05::build(quick),
+        "C10" => c10::build(quick),
         "C12" => c12::build(quick),
+        "C16" => c16::build(quick),
+        "C17" => c17::build(quick),
         "C19" => c19::build(quick),
         "C20" => c20::build(quick),
         _ => return None,
